@@ -89,6 +89,17 @@ def atom(v):
     return v
 
 
+def join_eq(a, b):
+    """Equality of a call argument with a stored value (a join).  Two nulls: SQL finds no
+    match, but a single-fact predicate is injected as constants and the compiler drops
+    the then textually identical `null == null` as trivially true (DESIGN section 6) - the
+    documentation tells users not to compare nulls with equality, so no value is
+    asserted."""
+    if a is None and b is None:
+        raise Ambiguous()
+    return cmpv('==', a, b) == 1
+
+
 def cmpv(op, a, b):
     a, b = atom(a), atom(b)
     if a is None or b is None:
@@ -670,7 +681,7 @@ class Evaluator(object):
                     for f, vn in binders:
                         rv = row[f]
                         if vn in en:
-                            if cmpv('==', en[vn], rv) != 1:
+                            if not join_eq(en[vn], rv):
                                 ok = False
                                 break
                         else:
@@ -680,7 +691,7 @@ class Evaluator(object):
                 for f, t, val in others:
                     if val is DEFER:
                         val = self.ev(t, en)
-                    if cmpv('==', val, row[f]) != 1:
+                    if not join_eq(val, row[f]):
                         ok = False
                         break
                 if ok:
